@@ -497,7 +497,7 @@ def k4_leaf_languages(res, tier, drv, caps):
                 continue
             cand.append((c, l, a))
     rng.shuffle(cand)
-    cand = cand[:(160 if tier == 'quick' else 3000)]
+    cand = cand[:(400 if tier == "quick" else 4000)]
     specs = []; items = []
     for k, (c, l, a) in enumerate(cand):
         raw = bytes.fromhex(a['lit']) if a.get('lit') not in (None, '-') else b''
